@@ -1,5 +1,6 @@
 """Per-property metadata used by the orchestrator: evidence level, non-triviality rule, assumptions,
 event floors (a run that observed fewer events is inconclusive), soft time budgets."""
+import os
 
 COMMON_ASSUMPTIONS = [
     "verdict covers only the executions produced by this run (generated programs, inputs, configurations, seeds)",
@@ -45,3 +46,29 @@ META = {
 HOOK_COMMITS = ["cdc558a"]
 PY_SERVES = []
 NOT_CLAIMED = {}
+
+
+def post_C13(agg, info):
+    import c13_json
+    v, cov = c13_json.check_dir(os.path.join(info["tmpdir"], "aux"), info["seed"], info["tier"], info["nshards"])
+    problems = []
+    if cov["json_texts_checked_by_python"] == 0:
+        problems.append("python JSON checker saw no records")
+    return v, cov, problems
+
+
+META["C13"] = {
+    "level": "exploration",
+    "rule": "exhaustive over all values of the 8- and 16-bit types; boundary sets {0, +-1, +-2^j, +-2^j+-1, min, max} plus uniform "
+            "values for 32/64/128-bit types; bit arrays of every length 1..70; every (writer type, reader width) pair; random nested "
+            "typed values (depth <= 4, all 11 scalar types, empty tuples/vectors) through the human-readable JSON form; a case is one "
+            "chunk of <= 256 integers or one typed value; non-trivial = integer chunks always, typed values that are arrays or "
+            "containers; distinct by hash of (type, contents)",
+    "assumptions": COMMON_ASSUMPTIONS + [
+        "oracle = the harness' own encoder/decoder of the documented layout and native two's-complement casts",
+        "JSON texts are additionally parsed by Python's json (arbitrary precision) and compared with the intended integers",
+    ],
+    "floors": {"quick": {"reader_calls": 5000, "json_roundtrips": 2000, "check_type_calls": 5000, "distinct_nontrivial": 1500},
+               "thorough": {"reader_calls": 50000, "json_roundtrips": 50000, "distinct_nontrivial": 20000}},
+    "exhaustive_note": "all 2^8 and 2^16 values of u8/i8/u16/i16 and both bit values were enumerated through every writer and reader",
+}
